@@ -11,7 +11,8 @@ def optDefault (j : Json) : Option Val := if jisNull j then none else some (valO
 def sigOfJson (j : Json) : Sig :=
   { pos := (jarr (jfield j "pos")).map (fun p => (jstr (jidx p 0), optDefault (jidx p 1))),
     kwonly := (jarr (jfield j "kwonly")).map (fun p => (jstr (jidx p 0), optDefault (jidx p 1))),
-    varargs := jbool (jfield j "varargs"), varkw := jbool (jfield j "varkw") }
+    varargs := jbool (jfield j "varargs"), varkw := jbool (jfield j "varkw"),
+    posOnly := jnat (jfield j "posonly") }
 
 def errJson (e : Err) : Json := err e.name
 
